@@ -207,7 +207,7 @@ func cmdCheck(args []string) int {
 	if *tier == "thorough" {
 		timeout, retryTimeout = 30, 90
 	}
-	workers := runtime.NumCPU() / 2
+	workers := runtime.NumCPU() - 2
 	if workers < 2 {
 		workers = 2
 	}
@@ -228,7 +228,7 @@ func cmdCheck(args []string) int {
 			go func(i int) {
 				defer wg.Done()
 				defer func() { <-sem }()
-				rr := solve(res[i].O.Query(), retryTimeout, seed+1, false)
+				rr := solveObligation(res[i].O, retryTimeout, seed+1, false)
 				res[i].R = rr
 				res[i].OK = rr.Status == "unsat"
 			}(i)
